@@ -84,8 +84,11 @@ def analyse(P: Project) -> WaitFacts:
         if P.resolve_call(send, call) is wait and wait is not send:
             b = bind_args(wait, call)
             return "wait:" + "|".join(f"{k}={subst_text(v, st)}" for k, v in sorted(b.items()))
-        if cancel_check is not None and isinstance(call.func, ast.Name) and call.func.id == cancel_check.name:
-            return "cancelcheck"
+        if cancel_check is not None and isinstance(call.func, ast.Name):
+            # the nested check by its own name, or by a local that holds it on this path (`check = the_check; await check()`)
+            t = st.term(call.func.id) or call.func.id
+            if t == cancel_check.name or an2.defs.get(t, ("", None))[0] == cancel_check.name:
+                return "cancelcheck"
         if nm.split(".")[-1] in ("create_request", "JSONRPCRequest"):
             parts = {k.arg: subst_text(k.value, st) for k in call.keywords if k.arg}
             names = ["method", "params", "id"]
